@@ -285,6 +285,8 @@ def build_case(desc):
     rejected."""
     if "window" in desc:
         return build_window(desc)
+    if "hood" in desc:
+        return build_hood(desc)
     if "gap" in desc:
         return build_gap(desc)
     d = dict(desc)
@@ -663,6 +665,121 @@ def build_window(desc):
         info.append({"kind": "aa", "input": resn,
                      "position": "n" if j == 0 else "c" if j == k - 1 else "mid",
                      "chain": "A", "res_seq": seq, "target": j == k // 2})
+    return build.pdb_text(atoms), info, atoms
+
+
+# ---------------------------------------------------------------------------
+# real-structure neighbourhoods ("hoods"): for every residue of a bundled
+# structure, the residues with a heavy atom within `radius` of it, each padded
+# with its sequence neighbours, written as one chain per contiguous fragment.
+# Unlike sequence windows a hood keeps the *spatial* partners of the centre,
+# so the hydrogen-bond networks, flips and bumps of the real fold (several
+# optimisable groups around one residue, both cysteines of a bridge) are
+# present.  One hood per residue: a finite, fully enumerated family.
+# ---------------------------------------------------------------------------
+def hood_members(f, ci, i, radius):
+    chains = _file_residues(f)
+    centre = np.array([xyz for _n, xyz in chains[ci][i][2]])
+    picked = set()
+    for cj, chain in enumerate(chains):
+        for j, (_rn, _seq, alist) in enumerate(chain):
+            if not alist:
+                continue
+            xyz = np.array([x for _n, x in alist])
+            d = np.sqrt(((xyz[:, None, :] - centre[None, :, :]) ** 2)
+                        .sum(-1)).min()
+            if d < radius:
+                for jj in (j - 1, j, j + 1):
+                    if 0 <= jj < len(chain):
+                        picked.add((cj, jj))
+    frags, cur = [], []
+    for cj, j in sorted(picked):
+        if cur and (cur[-1][0] != cj or cur[-1][1] != j - 1):
+            frags.append(cur)
+            cur = []
+        cur.append((cj, j))
+    if cur:
+        frags.append(cur)
+    return frags
+
+
+def hood_cases(ff, files=None, radius=4.5, opt="default", oxt=False,
+               complete_only=False):
+    out = []
+    for f in (files or WINDOW_FILES):
+        for ci, chain in enumerate(_file_residues(f)):
+            for i in range(len(chain)):
+                d = {"hood": [f, ci, i, radius], "ff": ff, "opt": opt,
+                     "env": []}
+                if oxt:
+                    d["oxt"] = True
+                if complete_only and not hood_complete(d):
+                    continue
+                out.append(d)
+    return out
+
+
+def hood_complete(desc):
+    """True if every residue of the hood has all heavy atoms of its
+    template (OXT aside)."""
+    f, ci, i, radius = desc["hood"]
+    chains = _file_residues(f)
+    for frag in hood_members(f, ci, i, radius):
+        if len(frag) < 2:
+            continue
+        for cj, j in frag:
+            resn, _seq, alist = chains[cj][j]
+            have = {n for n, _x in alist}
+            want = {n for n in T.load()[0][resn].atoms
+                    if not n.startswith("H")}
+            if want - have:
+                return False
+    return True
+
+
+def build_hood(desc):
+    f, ci, i, radius = desc["hood"]
+    chains = _file_residues(f)
+    atoms, info = [], []
+    seq = 1
+    ridx = 0
+    for fi, frag in enumerate(hood_members(f, ci, i, radius)):
+        if len(frag) < 2:
+            continue
+        cid = "ABCDEFGHIJKLMNOPQRSTUVXYZ"[fi % 25]
+        for k, (cj, j) in enumerate(frag):
+            resn, _oseq, alist = chains[cj][j]
+            tmpl = T.load()[0][resn]
+            last = k == len(frag) - 1
+            for name, xyz in alist:
+                if name == "OXT" and not last:
+                    continue
+                if name not in tmpl.atoms and name != "OXT":
+                    continue
+                atoms.append(build.BAtom(name=name, res_name=resn, chain=cid,
+                                         res_seq=seq, icode="",
+                                         xyz=xyz.copy(), record="ATOM",
+                                         res_idx=ridx))
+            have = dict(alist)
+            if last and desc.get("oxt") and "OXT" not in have \
+                    and all(n in have for n in ("CA", "C", "O")):
+                # the second carboxylate oxygen in the plane CA-C-O, mirror
+                # image of O about the CA-C line (the cut fragment becomes a
+                # complete chain)
+                u = have["C"] - have["CA"]
+                u = u / np.linalg.norm(u)
+                v = have["O"] - have["C"]
+                atoms.append(build.BAtom(
+                    name="OXT", res_name=resn, chain=cid, res_seq=seq,
+                    icode="", xyz=have["C"] + 2.0 * np.dot(v, u) * u - v,
+                    record="ATOM", res_idx=ridx))
+            info.append({"kind": "aa", "input": resn,
+                         "position": "n" if k == 0 else "c" if last else "mid",
+                         "chain": cid, "res_seq": seq,
+                         "target": (cj, j) == (ci, i)})
+            seq += 1
+            ridx += 1
+        seq += 10
     return build.pdb_text(atoms), info, atoms
 
 
